@@ -49,7 +49,10 @@ def gen_model(rng, modname, profile="orm"):
                 kind = rng.choice(RELS + (["self_list"] if allow_self_list else []))
             fname = ("_" if kind == "private" else "") + f"f{i}_{j}"
             target = None
-            if kind in ("ref", "opt_ref", "list_ref", "set_ref", "type"):
+            if profile == "diagram" and kind in ("list_ref", "opt_ref") and rng.random() < 0.3:
+                # two wrappers: a collection that may be missing, a collection of elements that may be missing
+                kind = "opt_list_ref" if kind == "opt_ref" else "list_opt_ref"
+            if kind in ("ref", "opt_ref", "list_ref", "set_ref", "type", "opt_list_ref", "list_opt_ref"):
                 target = rng.choice(names)
                 if kind in ("list_ref", "set_ref") and not allow_self_list:
                     # a collection of the class's own type is the listed self-list finding: avoid it here
@@ -144,6 +147,10 @@ def _annotation(f, quote=False):
         return f"List[{t}]", "field(default_factory=list)"
     if k == "set_ref":
         return f"Set[{t}]", "field(default_factory=set)"
+    if k == "opt_list_ref":
+        return f"Optional[List[{t}]]", "None"
+    if k == "list_opt_ref":
+        return f"List[Optional[{t}]]", "field(default_factory=list)"
     if k == "type":
         return f"Type[{t}]", "None"
     raise ValueError(k)
